@@ -21,7 +21,7 @@ HINT = "metadata.version-hint.text"
 # yield granularity: the protocol-significant operations (DESIGN.md C01 quantifier)
 # ---------------------------------------------------------------------------------------------------
 def protocol_yield_filter(op: str, path: str, phase: tuple) -> bool:
-    if op in ("LockTry", "LockFlock", "LockRel", "Fence", "Sleep", "Tick", "Land"):
+    if op in ("LockTry", "LockFlock", "LockRel", "Fence", "Sleep", "Tick", "Land", "LockOpen", "LockUnlock", "LockClose"):
         return True
     if path.endswith(HINT) and op in ("read_file", "read_file_with_etag", "write_file", "write_file_cas"):
         return True
@@ -266,7 +266,8 @@ def run_case(scratch: str, case: Dict[str, Any], chooser_factory: Callable[[S.Sc
     shutil.rmtree(root, ignore_errors=True)
     res = CaseResult()
     sc = S.Scheduler()
-    sc.fine_locks = bool(case.get("fine_locks", False))      # file-lock attempts: open and flock are separate steps
+    # file-lock attempts: open and flock are separate steps; "all": every primitive on the lock file is a step
+    sc.fine_locks = "all" if case.get("fine_locks") == "all" else bool(case.get("fine_locks", False))
     _CURRENT[0] = sc
     sc.yield_filter = case.get("yield_filter", protocol_yield_filter)
     lock_mode = case.get("lock", "real")
@@ -611,6 +612,8 @@ def project(res: CaseResult, nactors: int, cas: bool = False, lease: bool = Fals
                 if holder == a:
                     holder = None
                 events.append((ai, "ERelease"))
+        elif op in ("LockOpen", "LockUnlock", "LockClose"):
+            n_known += 1                          # primitives below the lock provider: judged by the lock layer (Model/ProcLock.v, C01)
         elif op in ("exists", "read_file", "open_file", "write_file", "delete_file", "DataW", "DataR", "Sleep",
                     "get_size", "get_modified_time", "list_files", "open_seekable"):
             if pcs.startswith("other:"):
